@@ -9,7 +9,7 @@ import shutil
 SUM = "/tmp/seedlogs/summary.txt"
 rows = {}
 for line in open(SUM):
-    m = re.match(r"^(C\d\d)_(\d)(b?)\s+demo_clean=(\S+) demo_patched=(\S+) \| (.*)$", line.strip())
+    m = re.match(r"^(C\d\d)_(\d)([a-z]?)\s+demo_clean=(\S+) demo_patched=(\S+) \| (.*)$", line.strip())
     if not m:
         continue
     prop, k, rerun, c0, c1, rest = m.groups()
